@@ -237,9 +237,9 @@ def _ops():
         op("codec(Optional[str]).decode('null')", "text", lambda: b"null", lambda x: typelib.codec(t.Optional[str]).decode(x)),
         op("unmarshal(Union[int,str],memoryview)", "union_order", lambda: memoryview(b"twelve"), lambda x: typelib.unmarshal(U1, x)),
         # two instants that compare and hash equal: the repeated hour at the end of daylight saving time (fold 0 / 1)
-        op("unmarshal(float,01:30 fold=0)", "equal_instant", lambda: _fold(0), lambda x: typelib.unmarshal(float, x)),
-        op("unmarshal(float,01:30 fold=1)", "equal_instant", lambda: _fold(1), lambda x: typelib.unmarshal(float, x)),
-        op("unmarshal(int,01:30 fold=1)", "equal_instant", lambda: _fold(1), lambda x: typelib.unmarshal(int, x)),
+        op("unmarshal(float,01:30 fold=0)", "equal_fold", lambda: _fold(0), lambda x: typelib.unmarshal(float, x)),
+        op("unmarshal(float,01:30 fold=1)", "equal_fold", lambda: _fold(1), lambda x: typelib.unmarshal(float, x)),
+        op("unmarshal(int,01:30 fold=1)", "equal_fold", lambda: _fold(1), lambda x: typelib.unmarshal(int, x)),
         # one read-only view object over a buffer whose content changes between the calls
         op("unmarshal(list[int],view of '[1, 2, 3]')", "text", lambda: _view(b"[1, 2, 3]"), lambda x: typelib.unmarshal(list[int], x)),
         op("unmarshal(list[int],same view, now '[7, 8, 9]')", "text", lambda: _view(b"[7, 8, 9]"), lambda x: typelib.unmarshal(list[int], x)),
@@ -348,10 +348,10 @@ def _cause(ops, cold, seq, pos):
                         "<clear caches>": "cache_clear_after"}[sp]
                 return f"{what}:{victim}"
             culprit = ops[k]
-            if culprit.klass == target.klass and culprit.variant != target.variant and target.klass in ("equal_instant", "union_order", "numeric_alias", "string_ref"):
+            if culprit.klass == target.klass and culprit.variant != target.variant and target.klass in ("equal_instant", "union_order", "numeric_alias", "string_ref", "equal_fold"):
                 return "after_equal_but_distinct:" + target.klass
             return "after:" + culprit.name
-    if target.klass in ("equal_instant", "union_order", "numeric_alias", "string_ref") and any(
+    if target.klass in ("equal_instant", "union_order", "numeric_alias", "string_ref", "equal_fold") and any(
             q < nops and ops[q].klass == target.klass and ops[q].variant != target.variant for q in seq[:pos]):
         return "after_equal_but_distinct:" + target.klass  # several earlier calls each suffice
     return "unexplained"
